@@ -65,6 +65,8 @@ def check(pid, tier, scratch, replay):
                 jobs.append(dict(u=b['u'], h=h, mode='fault', opt=dict(fault_step=s, fault_call=j), src=b['src']))
     if quick and len(jobs) > 420:
         jobs = rnd.sample(jobs, 420)
+    # fault points that once exposed a defect, re-evaluated by the current specification
+    jobs += [dict(j, src=j['src']) for j in props.regress_jobs(pid, scratch)]
     n_hist_faults = len(jobs)
     for k in range(2 if quick else 8):
         jobs.append(dict(u=base[0]['u'], h=[], mode='fault-addresses', opt=dict(seed=vlib.seed() + k), src='fault-addresses'))
